@@ -1,15 +1,15 @@
 #!/bin/bash
-# usage: seed_confirm.sh <ID>   — confirms the changes a sub-agent left in /tmp/seed/out-<ID> in its scratch worktree:
+# usage: seed_confirm.sh <ID>   — confirms the changes a sub-agent left in ${SEEDROOT:-/tmp/seed}/out-<ID> in its scratch worktree:
 # each patch applies alone to a clean tree, the library builds, the whole test suite passes, and the demonstration
-# (built with the command recorded in demoK.txt) shows the violation.  Results: /tmp/seed/out-<ID>/confirmK.log
-ID="$1"; W=/tmp/seed/wt-$ID; O=/tmp/seed/out-$ID
+# (built with the command recorded in demoK.txt) shows the violation.  Results: ${SEEDROOT:-/tmp/seed}/out-<ID>/confirmK.log
+ID="$1"; W=${SEEDROOT:-/tmp/seed}/wt-$ID; O=${SEEDROOT:-/tmp/seed}/out-$ID
 for K in ${KS:-1 2}; do
   [ -f $O/change$K.diff ] || continue
   L=$O/confirm$K.log; : > $L
   git -C $W checkout -- . ; git -C $W clean -fdq -e _build
   if ! git -C $W apply $O/change$K.diff >>$L 2>&1; then echo "APPLY-FAILED" >> $L; continue; fi
   echo "APPLIED" >> $L
-  /tmp/seed/run_tests.sh $W > $O/confirm_tests$K.log 2>&1; echo "TESTS rc=$?" >> $L
+  ${SEEDROOT:-/tmp/seed}/run_tests.sh $W > $O/confirm_tests$K.log 2>&1; echo "TESTS rc=$?" >> $L
   # demonstration: run the recorded build command(s)
   cd $O
   D=$(ls demo$K.c demo$K.py 2>/dev/null | head -1)
